@@ -313,13 +313,15 @@ def rule_frame(c: Ctx) -> RuleResult:
     for f in sorted(phase, key=lambda x: x.qual):
         if not f.module.rel.startswith(("rules_block/", "parser_block")):
             continue
+        if f.short == "StateBlock.__init__":
+            pass
         col_flags: dict[str, list[ast.AST]] = {}
         # ---- T1
         for m in _tabstops(f.node):
             n1 += 1
             key = f"{f.short}|T1|{alpha(f, m)}"
-            if f.short == "StateBlock.__init__":
-                r.add(key, c.where(f, m), f.short, U(m), "exempt", "constructor: a physical line is scanned from its start, the frames coincide")
+            if _is_ctor_scan(c, f):
+                r.add(key, c.where(f, m), f.short, U(m), "exempt", "constructor scan: a physical line is scanned from its start, the frames coincide")
                 continue
             ok = _mentions_bscount(m.left)
             r.add(key, c.where(f, m), f.short, U(m), "discharged" if ok else "violation",
@@ -341,7 +343,7 @@ def rule_frame(c: Ctx) -> RuleResult:
                 continue
             n2 += 1
             key = f"{f.short}|T2|{alpha(f, n)[:80]}"
-            if f.short == "StateBlock.__init__":
+            if _is_ctor_scan(c, f):
                 r.add(key, c.where(f, n), f.short, U(n)[:80], "exempt", "constructor")
                 continue
             restore = _is_restore(f, val)
@@ -361,6 +363,18 @@ def rule_frame(c: Ctx) -> RuleResult:
         raise AnchorError(f"only {n1} tab-stop computations / {n2} bsCount stores found")
     r.floor = 8
     return r
+
+
+def _is_ctor_scan(c: Ctx, f: Func) -> bool:
+    """StateBlock.__init__, or a helper only it calls that has no access to a StateBlock (it scans raw physical lines)."""
+    if f.short == "StateBlock.__init__":
+        return True
+    init = c.p.func("rules_block/state_block.py:StateBlock.__init__")
+    callers = c.cg.callers.get(f, [])
+    if not callers or any(cs.caller is not init for cs in callers):
+        return False
+    sc = c.tf.scope(f)
+    return not any(sc.env.get(a.arg) == "StateBlock" for a in f.node.args.posonlyargs + f.node.args.args)
 
 
 def _is_restore(f: Func, val: ast.AST) -> bool:
